@@ -293,7 +293,7 @@ structure BinFile where
   name : String
   inherits : List String       -- names as written: "dir/file.c"
   intact : Bool := true        -- the trailing checksum matches the bytes before it
-  deriving Repr, BEq, Inhabited
+  deriving Repr, BEq, DecidableEq, Inhabited
 
 /-- "<SaveBinaryDir>/<name>" with the last character replaced by 'b' -/
 def stdBinOf (binDir : String) (name : String) : String :=
